@@ -49,7 +49,20 @@ FUN_BODIES = {
     'inline-if-in-return': '{ int l = 0; return cbb ? WE : 0; }',
     'after-return-in-branch': '{ int l = 0; if (cbb) return 0; WS return l; }',
     'call-argument': '{ int l = 0; return f1(WE); }',
+    'switch-free-sequence': '{ int l = 0; l = 1; l = l + 1; WS l = l * 2; return l; }',
 }
+# writes whose target is chosen by an inline-if between a local and a global (either order), and reference arguments chosen that way
+COND_FUNS = [
+    ('cond-lvalue-local-first', 'int wf() { int l = 0; (cbb ? l : v) = 1; return l; } ', 'int wf() { int l = 0; int l2 = 0; (cbb ? l : l2) = 1; return l; } '),
+    ('cond-lvalue-global-first', 'int wf() { int l = 0; (cbb ? v : l) = 1; return l; } ', 'int wf() { int l = 0; int l2 = 0; (cbb ? l2 : l) = 1; return l; } '),
+    ('cond-lvalue-increment', 'int wf() { int l = 0; (cbb ? l : v)++; return l; } ', 'int wf() { int l = 0; int l2 = 0; (cbb ? l : l2)++; return l; } '),
+    ('cond-lvalue-op-assign', 'int wf() { int l = 0; (cbb ? l : va[1]) += 2; return l; } ', 'int wf() { int l = 0; int la[2]; (cbb ? l : la[1]) += 2; return l; } '),
+    ('cond-lvalue-parameter-first', 'int wf0(int p) { (p > 0 ? p : v) = 1; return p; } int wf() { return wf0(1); } ', 'int wf0(int p) { int l2 = 0; (p > 0 ? p : l2) = 1; return p; } int wf() { return wf0(1); } '),
+    ('cond-reference-argument', 'void wr0(int &r) { r = 1; } int wf() { int l = 0; wr0(cbb ? l : v); return l; } ', 'void wr0(int &r) { r = 1; } int wf() { int l = 0; int l2 = 0; wr0(cbb ? l : l2); return l; } '),
+    ('nested-cond-lvalue', 'int wf() { int l = 0; int l2 = 0; (cbb ? l : (cbb ? l2 : v)) = 1; return l; } ', 'int wf() { int l = 0; int l2 = 0; int l3 = 0; (cbb ? l : (cbb ? l2 : l3)) = 1; return l; } '),
+    ('comma-free-chained-assign', 'int wf() { int l = 0; l = v = 1; return l; } ', 'int wf() { int l = 0; int l2 = 0; l = l2 = 1; return l; } '),
+    ('array-element-by-local-index', 'int wf() { int l = 1; va[l] = 2; return l; } ', 'int wf() { int l = 1; int la[3]; la[l] = 2; return l; } '),
+]
 STMTS = {  # name -> (write statement, write expression, read statement, read expression)
     'assign': ('v = 1;', '(v = 1)', 'l = cv + 1;', '(cv + 1)'),
     'increment': ('v++;', '(v++)', 'l++;', '(l + 1)'),
@@ -70,6 +83,8 @@ def call_forms():
     for bk in FUN_BODIES:
         for sk in (STMTS if bk == 'body' else ['assign', 'increment'] if bk in ('if-branch', 'for-body', 'iteration-body') else ['assign']):
             out.append(('call:%s:%s' % (bk, sk), fun_decl('wf', bk, sk, True), fun_decl('wf', bk, sk, False), 'wf()', 'wf()'))
+    for nm, wd, rd in COND_FUNS:
+        out.append(('call:' + nm, wd, rd, 'wf()', 'wf()'))
     # call chains of depth 1..4 below the caller
     for depth in (1, 2, 3, 4):
         w = fun_decl('wf0', 'body', 'assign', True)
